@@ -1,0 +1,23 @@
+//go:build verif
+
+package isobmff
+
+import "bufio"
+
+type verifFill byte
+
+func (f verifFill) Read(p []byte) (int, error) {
+	for i := range p {
+		p[i] = byte(f)
+	}
+	return len(p), nil
+}
+
+// VerifPoisonReaders fills the internal buffer of a pooled bufio.Reader with the given byte and returns it to the pool.
+func VerifPoisonReaders(fill byte) {
+	br := readerPool.Get().(*bufio.Reader)
+	br.Reset(verifFill(fill))
+	_, _ = br.Peek(br.Size())
+	br.Reset(nil)
+	readerPool.Put(br)
+}
